@@ -46,6 +46,8 @@ def programs(rng, quick):
             extra.append(e)
             if not (p["mto"] and p["hasprimary"]):
                 extra.append(dict(p, gated_tasks=[1], get_after={1: 1.0}))
+                if len(p["spawners"]) == 1:  # the boundary: get(timeout=0) on a task that is still running times out at once
+                    extra.append(dict(p, gated_tasks=[1], get_after={1: 0}))
             if p["shutter"]:
                 extra.append(dict(p, shutdown_via_terminate=True))
     if quick:
